@@ -63,6 +63,13 @@ inductive Frag : Node → Prop
   | tryN (n : Node) (t : Tok) (body : Node) (clauses : List Node) (ht : n.tok = some t) (h : n.name = "try")
       (hc : n.children = some body :: clauses.map some) (fb : Frag body) (hbn : body.name ≠ "finally")
       (hcl : ∀ c, c ∈ clauses → Clause c) : Frag n
+  | funcNamed (n : Node) (t t0 : Tok) (c0 params body : Node) (ps : List Node) (ht : n.tok = some t)
+      (h : n.name = "function") (hc : n.children = [some c0, some params, some body])
+      (h0 : c0.name = "identifier") (ht0 : c0.tok = some t0)
+      (hp : params.children = ps.map some) (hps : ∀ p, p ∈ ps → Param p) (fb : Frag body) : Frag n
+  | funcAnon (n : Node) (t : Tok) (params body : Node) (ps : List Node) (ht : n.tok = some t)
+      (h : n.name = "function") (hc : n.children = [some params, some body]) (h0 : params.name ≠ "identifier")
+      (hp : params.children = ps.map some) (hps : ∀ p, p ∈ ps → Param p) (fb : Frag body) : Frag n
   | inert (n : Node) (t : Tok) (ht : n.tok = some t)
       (h : n.name = "like" ∨ n.name = "kvp" ∨ n.name = "preset" ∨ n.name = "params" ∨ n.name = "funccall" ∨
            n.name = "compaccess" ∨ n.name = "except" ∨ n.name = "otherwise" ∨ n.name = "finally" ∨
@@ -73,6 +80,12 @@ inductive Link : Node → Prop
   | field (c : Node) (t : Tok) (kids : List Node) (hn : c.name = "identifier") (ht : c.tok = some t)
       (hc : c.children = kids.map some) (hl : ∀ k, k ∈ kids → Link k) : Link c
   | other (c : Node) (hn : c.name ≠ "compaccess" ∧ c.name ≠ "identifier" ∧ c.name ≠ "funccall") : Link c
+/-- a parameter of a function declaration: a name, a name with a default expression, anything else (ignored) -/
+inductive Param : Node → Prop
+  | name (p : Node) (t : Tok) (hn : p.name = "identifier") (ht : p.tok = some t) : Param p
+  | preset (p nm d : Node) (t : Tok) (hn : p.name = "preset") (hc : p.children = [some nm, some d])
+      (ht : nm.tok = some t) (fd : Frag d) : Param p
+  | other (p : Node) (hn : p.name ≠ "identifier" ∧ p.name ≠ "preset") : Param p
 /-- a clause of `try`: an except clause (any of its shapes: its children are `Frag`), an otherwise / finally
     block, anything else (ignored by the evaluator) -/
 inductive Clause : Node → Prop
@@ -1081,6 +1094,28 @@ theorem eval_frag_np : ∀ (f sc : Nat) (n : Node), Frag n → NP (eval f sc n) 
         cases f with
         | zero => unfold evalTry; np
         | succ f' => exact evalTry_step f' (fun g'' hg => ihs g'' (by omega)) sc n t body clauses ht hc fb hbn hcl
+      | funcNamed n t t0 c0 params body ps ht h hc h0 ht0 hp hps fb =>
+        have hn' : Frag n := Frag.funcNamed n t t0 c0 params body ps ht h hc h0 ht0 hp hps fb
+        unfold eval; simp [h, hc, child, h0, tokOf, ht0]
+        refine NPQ.bind (get : M St) _ Inv _ NPQ.get (fun s hs => ?_)
+        refine NPQ.bind _ _ (fun _ => True) _ (NPQ.set _ ?_) (fun _ _ => by np)
+        refine ⟨?_, hs.2⟩
+        intro fr hfr
+        simp only [Array.toList_push, List.mem_append, List.mem_singleton] at hfr
+        rcases hfr with hfr | hfr
+        · exact hs.1 fr hfr
+        · subst hfr; exact hn'
+      | funcAnon n t params body ps ht h hc h0 hp hps fb =>
+        have hn' : Frag n := Frag.funcAnon n t params body ps ht h hc h0 hp hps fb
+        unfold eval; simp [h, hc, child, h0]
+        refine NPQ.bind (get : M St) _ Inv _ NPQ.get (fun s hs => ?_)
+        refine NPQ.bind _ _ (fun _ => True) _ (NPQ.set _ ?_) (fun _ _ => by np)
+        refine ⟨?_, hs.2⟩
+        intro fr hfr
+        simp only [Array.toList_push, List.mem_append, List.mem_singleton] at hfr
+        rcases hfr with hfr | hfr
+        · exact hs.1 fr hfr
+        · subst hfr; exact hn'
       | inert n t ht h =>
         rcases h with h | h | h | h | h | h | h | h | h | h | h | h <;> (unfold eval; simp [h]; np)
 
